@@ -125,6 +125,9 @@ func TestWorker(t *testing.T) {
 	}
 	rw := newRaceWatch()
 	defer func() {
+		if n := int(engine.LeakyBubbles.Load()); n > 0 {
+			res.Probes["bubble-ended-with-blocked-goroutines"] += n
+		}
 		if rw != nil {
 			res.Probes["race-reports-total"] += rw.Total
 			res.Probes["race-reports-harness-noise"] += rw.Noise
